@@ -20,7 +20,8 @@
                       replaced by spec_status r (p_ctr p).
    None of these mentions the packet map, the index maps, deletion or the cursor. *)
 From IV Require Import Base.Word Model.FbAdapter Model.RtpfbConvert Model.RtpfbHistory Spec.FbSpec Spec.RtpfbSpec.
-From IV Require Import Proofs.RtpfbHistoryProofs Proofs.FbAdapterProofs Proofs.FbAdapterMore.
+From IV Require Import Proofs.RtpfbHistoryProofs Proofs.RtpfbHistoryFull Proofs.RtpfbConvertProofs
+  Proofs.FbAdapterProofs Proofs.FbAdapterMore.
 From Coq Require Import Sorted.
 
 (* ---------------- rtpfb: at most once, in send order ---------------- *)
@@ -54,11 +55,7 @@ Theorem C09_report_entry_is_the_send : forall r p,
     p_ssrc p = p_ssrc q /\ p_rtpseq p = p_rtpseq q /\ p_istwcc p = p_istwcc q /\ p_twseq p = p_twseq q /\
     p_size p = p_size q /\ p_dep p = p_dep q /\
     (p_arrived p, p_arrival p, p_ecn p) = spec_status r (p_ctr p).
-Proof.
-  intros r p (q & Hq & Hp). exists q. pose proof (send_rec_some _ _ _ Hq) as [_ Hr].
-  split; [exact Hq|]. split; [exact Hr|]. rewrite Hp at 1 2 3 4 5 6 7 8 9. cbn.
-  destruct (spec_status r (p_ctr p)) as [[a t] e]. cbn. repeat split; reflexivity.
-Qed.
+Proof. exact entry_is_the_send. Qed.
 Print Assumptions C09_report_entry_is_the_send.
 
 (* non-vacuity: three packets (one retransmitted under the same TWCC number), feedback
@@ -88,6 +85,70 @@ Theorem C09_interceptor_report_entries : forall reft32 ops1 now pkts ops2 p,
 Proof. exact rtpfb_interceptor_report_entries. Qed.
 Print Assumptions C09_interceptor_report_entries.
 
+(* ---------------- rtpfb: complete functional specification ---------------- *)
+
+(* [spec_cursor r] = (cursor, high mark): the cursor starts at 0 and a buildReport moves it
+   just above the high mark; the high mark is the highest packet a feedback acknowledged as
+   ARRIVED while that packet was at or above the cursor (feedback designates the most recent
+   packet sent under its sequence number).  [spec_report r] = the packets cursor..high mark,
+   each as send record + latest status ([] when the high mark is below the cursor);
+   [spec_run] = one [spec_report] per buildReport call.
+   For EVERY call history the model's outputs EQUAL this specification: each report holds
+   exactly the not yet reported packets up to the highest one acknowledged as arrived - none
+   missing, none twice, in send order, with the latest status. *)
+Theorem C09_rtpfb_history_is_spec : forall evs,
+  nsends (rev evs) < W64 -> hrun h_init evs = spec_run [] evs.
+Proof. exact rtpfb_history_is_spec. Qed.
+Print Assumptions C09_rtpfb_history_is_spec.
+
+(* ... and for the Interceptor model: the Report attribute of every read is spec_report of
+   the calls made so far (writes, and the acknowledgements convertTWCC / convertCCFB extract
+   from the packets read, in order) *)
+Theorem C09_rtpfb_interceptor_is_spec : forall reft32 ops,
+  Z.of_nat (length ops) < W64 -> rrun reft32 h_init ops = rspec_run reft32 [] ops.
+Proof. exact rtpfb_interceptor_is_spec. Qed.
+Print Assumptions C09_rtpfb_interceptor_is_spec.
+
+(* ---------------- rtpfb: what convertTWCC / convertCCFB extract ---------------- *)
+
+(* Range (the property's "sequence numbers outside the range the feedback declares are not
+   reported"), unconditionally, for pkg/rtpfb: every acknowledgement convertTWCC extracts is
+   for sequence number base + k with 0 <= k < PacketStatusCount.  (For the cc adapter this
+   is refuted: C09_beyond_count_refuted.) *)
+Theorem C09_rtpfb_twcc_range : forall base count ref24 cs ds,
+  Forall (fun a : fack => exists k, 0 <= k < count /\ fst (fst (fst a)) = u16 (base + u16 k))
+         (convert_twcc base count ref24 cs ds).
+Proof. exact convert_twcc_range. Qed.
+Print Assumptions C09_rtpfb_twcc_range.
+
+(* Position semantics of convertTWCC in closed form, for every packet with at least as many
+   deltas as delta-carrying symbols below the count (rtcp.Unmarshal's guarantee): offset by
+   offset below min(count, symbols), sequence number base + k, status = symbol k (0 lost,
+   1/2 arrived at arrival_at k, 3 arrived at the zero time, other values nothing). *)
+Theorem C09_rtpfb_twcc_decode : forall base count ref24 cs ds,
+  (ndeltas (firstn (Z.to_nat count) (symbols cs)) <= length ds)%nat ->
+  convert_twcc base count ref24 cs ds =
+  flat_map (fun k => fack_at base (Z.of_nat k) (nth k (symbols cs) 0) (arrival_at ref24 (symbols cs) ds k))
+           (seq 0 (Nat.min (Z.to_nat count) (length (symbols cs)))).
+Proof. exact convert_twcc_closed. Qed.
+Print Assumptions C09_rtpfb_twcc_decode.
+
+Example C09_rtpfb_twcc_decode_nonvacuous :
+  convert_twcc 65535 3 1 [SV [1; 0; 2; 1; 0; 0; 0]] [1000; -250] =
+  [(65535, true, 65000000, 0); (0, false, 0, 0); (1, true, 64750000, 0)].
+Proof. vm_compute. reflexivity. Qed.
+Print Assumptions C09_rtpfb_twcc_decode_nonvacuous.
+
+(* convertCCFB: metric block n of a report block is about sequence number begin + n and
+   carries its received flag, ECN and reference - ato/1024 s (zero time for ato 0x1FFF) *)
+Theorem C09_rtpfb_ccfb_block : forall reft mbs seq n,
+  0 <= seq < 65536 -> (n < length mbs)%nat ->
+  length (convert_mblocks reft seq mbs) = length mbs /\
+  nth n (convert_mblocks reft seq mbs) (0, false, 0, 0) =
+  mb_fack reft (u16 (seq + Z.of_nat n)) (nth n mbs (false, 0, 0)).
+Proof. exact convert_mblocks_block. Qed.
+Print Assumptions C09_rtpfb_ccfb_block.
+
 (* ---------------- cc adapter: the history IS the oracle's specification ---------------- *)
 
 (* After any operation list the adapter's bounded LRU history equals the 250 most
@@ -111,7 +172,7 @@ Print Assumptions C09_arrivals_iff.
 
 (* ---------------- round trip with the library's own generators ---------------- *)
 From IV Require Import Model.TwccChunk Proofs.TwccFeedbackProofs Proofs.FbRoundTrip Proofs.FbRoundTripRec.
-From IV Require Model.TwccRecorder Model.StreamLog Model.Rfc8888Recorder Proofs.StreamLogProofs Proofs.Rfc8888Proofs
+From IV Require Proofs.FbRoundTripRtpfb Model.TwccRecorder Model.StreamLog Model.Rfc8888Recorder Proofs.StreamLogProofs Proofs.Rfc8888Proofs
   Proofs.FbRoundTrip8888.
 
 (* TWCC, feedback-builder level (C05 model: newFeedback/setBase, addReceived, getRTCP and
@@ -148,6 +209,28 @@ Example C09_roundtrip_twcc_nonvacuous :
 Proof. vm_compute. reflexivity. Qed.
 Print Assumptions C09_roundtrip_twcc_nonvacuous.
 
+(* End to end with the adapter's own bounded history: after ANY operation list, one more
+   step feeding such a feedback returns no error and acknowledges, for every recorded arrival
+   (s, t), the most recent send with TWCC number s among the 250 most recently sent distinct
+   packets (C09_history_is_recent_250) with an arrival time within 125 us of t. *)
+Theorem C09_roundtrip_twcc_end_to_end : forall reftime ops b t0 tr f sender media fbc,
+  0 <= b < 65536 -> 0 <= Z.quot t0 64000 < 16777216 ->
+  Forall (fun e : Z * Z => 0 <= fst e < 65536) tr ->
+  fb_adds (fb_new b t0) tr = Some f ->
+  let p := fb_get_rtcp sender media fbc f in
+  let H := recent 250 (send_log ops []) in
+  exists acks,
+    snd (step reftime (final reftime [] ops)
+              (FbTwcc (p_base p) (p_count p) (p_ref p) (map chunk_of_wire (p_chunks p)) (map snd (p_deltas p))))
+    = (0, acks) /\
+    Forall (fun e : Z * Z =>
+      let '(s, t) := e in
+      exists k T, (k < length acks)%nat /\ (p_base p + Z.of_nat k) mod 65536 = s /\
+        Z.abs (T - t * 1000) <= 125000 /\
+        nth k acks zero_ack = match hget H 0 s with Some a => set_arr a T | None => zero_ack end) tr.
+Proof. exact roundtrip_twcc_end_to_end. Qed.
+Print Assumptions C09_roundtrip_twcc_end_to_end.
+
 (* TWCC, recorder level: EVERY packet of EVERY BuildFeedbackPacket of EVERY Record/Build
    history of the C05 recorder model is such a feedback; tr is the non-empty list of
    (sequence number, arrival time) it was fed, t0 its first arrival time. *)
@@ -165,6 +248,26 @@ Theorem C09_roundtrip_twcc_recorder : forall sender ops ps p h,
            nth k acks zero_ack = match hget h 0 s with Some a => set_arr a T | None => zero_ack end) tr).
 Proof. exact roundtrip_twcc_recorder. Qed.
 Print Assumptions C09_roundtrip_twcc_recorder.
+
+(* TWCC feedback of the C05 builder decoded by pkg/rtpfb's convertTWCC: exactly one
+   acknowledgement per status below the count (the padding of the last chunk yields none),
+   and every recorded arrival (s, t) comes back as (s, arrived, T, no ECN), |T - t| <= 125 us.
+   (syms = the statuses the feedback was fed; fewer than 2^16 of them, as in C05.) *)
+Theorem C09_roundtrip_twcc_rtpfb : forall b t0 tr f sender media fbc,
+  0 <= b < 65536 -> 0 <= Z.quot t0 64000 < 16777216 ->
+  Forall (fun e : Z * Z => 0 <= fst e < 65536) tr ->
+  fb_adds (fb_new b t0) tr = Some f ->
+  let p := fb_get_rtcp sender media fbc f in
+  exists syms, fb_inv f syms /\
+    (Z.of_nat (length syms) < 65536 ->
+     let facks := convert_twcc (p_base p) (p_count p) (p_ref p) (map chunk_of_wire (p_chunks p)) (map snd (p_deltas p)) in
+     length facks = length syms /\
+     Forall (fun e : Z * Z =>
+       let '(s, t) := e in
+       exists k T, (k < length facks)%nat /\ nth k facks (0, false, 0, 0) = (s, true, T, 0) /\
+                   Z.abs (T - t * 1000) <= 125000) tr).
+Proof. exact IV.Proofs.FbRoundTripRtpfb.roundtrip_twcc_rtpfb. Qed.
+Print Assumptions C09_roundtrip_twcc_rtpfb.
 
 (* RFC 8888 (C08 models).  [stream_ack h rt ref ssrc log i] = what must come back for
    number i of a stream: nothing if (ssrc, i mod 2^16) is not in the send history, the send
@@ -236,3 +339,31 @@ Theorem C09_oracle_history_is_model : forall reftime ops,
   IV.Check.C09Check.ohist (send_log ops []) = final reftime [] ops.
 Proof. exact IV.Proofs.C09OracleLink.oracle_history_is_model. Qed.
 Print Assumptions C09_oracle_history_is_model.
+
+(* The rtpfb run-time oracle (fb_spec_failures = fb_case_codes per case: own send log, own
+   decode, own cursor; codes 31-36, 90, 91) returns NO code for a case EXACTLY when the
+   feedback of the case is well formed - TWCC packets with 16-bit base and at least as many
+   deltas as delta symbols below the count (rtcp.Unmarshal's guarantee), CCFB packets with
+   one report block per SSRC (the generator's rule; code 90 otherwise) - AND the
+   implementation's reports equal the Prop-level specification [rspec_run] that the model is
+   proved equal to (C09_rtpfb_interceptor_is_spec). *)
+From IV Require Proofs.C09OracleRtpfb.
+Theorem C09_fb_oracle_iff : forall c : IV.Check.C09Check.fb_case,
+  let ops := flat_map IV.Check.C09Check.rexpand (fst c) in
+  let outs := map (fun l => IV.Check.C09Check.unflat_rep l (length l)) (snd c) in
+  IV.Check.C09Check.fb_case_codes c = [] <->
+  Forall IV.Proofs.C09OracleRtpfb.wf_rop ops /\
+  outs = IV.Check.C09Check.read_outs ops (rspec_run IV.Check.C09Check.reft32 [] ops).
+Proof. exact IV.Proofs.C09OracleRtpfb.fb_oracle_iff. Qed.
+Print Assumptions C09_fb_oracle_iff.
+
+Example C09_fb_oracle_iff_nonvacuous :
+  Forall IV.Proofs.C09OracleRtpfb.wf_rop
+    [RSend true (Some 10) 7 100 1200 5; RRead 9 [FTw 10 1 1 [SV [1; 0; 0; 0; 0; 0; 0]] [1000]; FCf 3 [(7, 100, [(true, 0, 5)])]]].
+Proof.
+  constructor; [exact I|]. constructor; [|constructor]. cbn [IV.Proofs.C09OracleRtpfb.wf_rop].
+  constructor; [|constructor; [|constructor]].
+  - split; [lia|]. vm_compute. constructor.
+  - cbn. constructor; [intros []|constructor].
+Qed.
+Print Assumptions C09_fb_oracle_iff_nonvacuous.
